@@ -28,7 +28,7 @@ inline void init(char const* prop)
 {
 	if (g_ctx) return;
 	std::atexit(dump);
-	if (!std::freopen("/dev/null", "w", stdout)) {}
+	if (!std::getenv("VERIF_FUZZ_VERBOSE") && !std::freopen("/dev/null", "w", stdout)) {}
 	g_ctx = new kit::Ctx(); // on the heap: must outlive the atexit dump
 	g_ctx->opt.prop = prop;
 }
